@@ -421,3 +421,12 @@ Definition strict_flag (r : recv) (m : meth) : bool :=
 Definition body_of_query (st : result unit) : body :=
   mkbody [] (match st with Ok _ => ONil | Err n => OErr (EBody n) | Panic => OPanic 0 end).
 Definition default_switches : switches := mkswitches true true false.
+
+(* ---- a process issues its queries one after the other. orm.go has no package-level state that a query
+   writes (the errors and tagName are constants): mapStructFieldsIntoSlice recomputes unwrapFields and
+   getTaggedFieldValueMap from the destination's own reflect.Value on every call. A query is therefore
+   predicted from its own destination shape; the NAME of the destination type is not even an input. ---- *)
+Definition fill_query := (list field * bool * list string * list cell)%type.
+Definition fill_one (q : fill_query) : dst * result unit :=
+  let '(fs, strict, cols, row) := q in fill_struct fs strict cols row (init_dest (unwrap_fields fs)).
+Definition fill_sequence (qs : list fill_query) : list (dst * result unit) := map fill_one qs.
